@@ -166,7 +166,12 @@ class PosInterp:
 
     def instantiate(self, cls: str, args: list, kwargs: dict, node: ast.AST) -> Obj:
         if not self.is_dataclass(cls):
-            raise self.err(node, f'construction of {cls}')
+            init = self.method(cls, '__init__')
+            if init is None:
+                raise self.err(node, f'construction of {cls}')
+            o = Obj(cls)
+            self.call_function(init, [o] + args, kwargs)
+            return o
         o = Obj(cls)
         fl = self.fields_of(cls)
         for (name, _), v in zip(fl, args):
@@ -264,6 +269,19 @@ class PosInterp:
                 for x in self.iter_of(args[0], node):
                     total = add(total, x)
                 return total
+            if n == 'itertools.accumulate':
+                if len(args) != 1 or set(kwargs) - {'initial'}:
+                    raise self.err(node, 'itertools.accumulate with a function')
+                acc: list = []
+                run: Any = kwargs.get('initial')
+                if run is not None:
+                    acc.append(run)
+                for x in self.iter_of(args[0], node):
+                    run = x if run is None else add(run, x)
+                    acc.append(run)
+                return acc
+            if n == 'itertools.chain':
+                return [x for a_ in args for x in self.iter_of(a_, node)]
             if n in ('set', 'frozenset'):
                 out_: list = []
                 for x in (self.iter_of(args[0], node) if args else []):
@@ -507,7 +525,7 @@ class PosInterp:
         if isinstance(e, ast.Name):
             if e.id in env:
                 return env[e.id]
-            if e.id in ('Position', '_StoreHandle', '_StoreBlock'):
+            if e.id in ('Position', '_StoreHandle', '_StoreBlock', 'TokenStore'):
                 return ClassRef(e.id)
             if e.id in ('len', 'range', 'enumerate', 'list', 'isinstance', 'max', 'min', 'bool', 'abs', 'next', 'reversed', 'tuple', 'str', 'int', 'dict', 'iter', 'any', 'all', 'sorted', 'zip', 'sum', 'set', 'frozenset', 'id', 'repr'):
                 return Builtin(e.id)
@@ -521,8 +539,8 @@ class PosInterp:
                     return self.expr(st.value, {})          # module constant (_LOAD_FACTOR and friends)
             raise self.err(e, 'name')
         if isinstance(e, ast.Attribute):
-            if norm(e) == 'copy.copy':
-                return Builtin('copy.copy')
+            if norm(e) in ('copy.copy', 'itertools.accumulate', 'itertools.chain'):
+                return Builtin(norm(e))
             base = self.expr(e.value, env)
             if isinstance(base, Obj):
                 if e.attr in base.f:
@@ -590,10 +608,14 @@ class PosInterp:
         if isinstance(e, ast.YieldFrom):
             self._yields[-1].extend(self.iter_of(self.expr(e.value, env), e))
             return None
-        if isinstance(e, ast.Tuple):
-            return tuple(self.expr(x, env) for x in e.elts)
-        if isinstance(e, ast.List):
-            return [self.expr(x, env) for x in e.elts]
+        if isinstance(e, (ast.Tuple, ast.List)):
+            items: list = []
+            for x in e.elts:
+                if isinstance(x, ast.Starred):
+                    items.extend(self.iter_of(self.expr(x.value, env), x))
+                else:
+                    items.append(self.expr(x, env))
+            return tuple(items) if isinstance(e, ast.Tuple) else items
         if isinstance(e, (ast.ListComp, ast.GeneratorExp)):
             return [self.expr(e.elt, en) for en in self.comprehension(e, env)]
         if isinstance(e, ast.SetComp):
@@ -616,9 +638,14 @@ class PosInterp:
             return v_
         if isinstance(e, ast.Call):
             f = self.expr(e.func, env)
-            if any(isinstance(a, ast.Starred) for a in e.args) or any(k.arg is None for k in e.keywords):
+            if any(k.arg is None for k in e.keywords):
                 raise self.err(e, 'star arguments')
-            args = [self.expr(a, env) for a in e.args]
+            args = []
+            for a in e.args:
+                if isinstance(a, ast.Starred):
+                    args.extend(self.iter_of(self.expr(a.value, env), a))
+                else:
+                    args.append(self.expr(a, env))
             kwargs = {k.arg: self.expr(k.value, env) for k in e.keywords}
             if isinstance(f, _DictMethod):
                 if f.how == 'get':
@@ -685,6 +712,20 @@ def mk_token(tag: str, nl: bool) -> Obj:
     l, c = tok_size(tag, nl)
     text = StrSym(tag, nl)
     return Obj('Token', {'size': mk_pos(l, c), 'store_handle': None, 'raw_text': text, '_raw_text': text}, label=tag)
+
+
+def new_store(ts: TS, length: Any = 0) -> Obj:
+    """An abstract TokenStore: whatever fields __init__ sets (interpreted), then no blocks and the given length."""
+    store = Obj('TokenStore', {}, 'store')
+    init = ts.funcs.get('TokenStore.__init__')
+    if init is not None:
+        try:
+            PosInterp(ts, []).call_function(init, [store], {})
+        except Raised as ex:
+            raise AnalysisError(f'TokenStore.__init__ raises on the abstract store: {ex}')
+    store.f['_blocks'] = []
+    store.f['_len'] = length
+    return store
 
 
 def mk_block(store: Obj, index: int, pattern: str, tag: str, consistent: bool = True) -> Obj:
@@ -840,7 +881,7 @@ def rule_pos_sem(ctx: RuleContext, ts: TS, rid: str, max_tokens: int = 4) -> Non
                 if new_nl == 'same' and pat[idx] != 'N':
                     continue          # 'same': the new text has exactly as many newlines as the old one (> 0)
                 def run_update(it: PosInterp, pat: str = pat, idx: int = idx, new_nl: Any = new_nl) -> Optional[str]:
-                    store = Obj('TokenStore', {'_blocks': [], '_len': len(pat)}, 'store')
+                    store = new_store(ts, len(pat))
                     b = mk_block(store, 0, pat, 't')
                     store.f['_blocks'].append(b)
                     tok = b.f['tokens'][idx]
@@ -863,7 +904,7 @@ def rule_pos_sem(ctx: RuleContext, ts: TS, rid: str, max_tokens: int = 4) -> Non
                 for ej in range(sj, len(pat) + 1):
                     for ins in ('', 'P', 'N', 'PN'):
                         def run_splice(it: PosInterp, pat: str = pat, sj: int = sj, ej: int = ej, ins: str = ins) -> Optional[str]:
-                            store = Obj('TokenStore', {'_blocks': [], '_len': len(pat)}, 'store')
+                            store = new_store(ts, len(pat))
                             b = mk_block(store, 0, pat, 't')
                             store.f['_blocks'].append(b)
                             old = list(b.f['tokens'])
@@ -894,7 +935,7 @@ def rule_pos_sem(ctx: RuleContext, ts: TS, rid: str, max_tokens: int = 4) -> Non
             layout = (['PN'] if extra_first else []) + blocks_pat
             for j in range(len(layout[-1])):
                 def run_pos(it: PosInterp, layout: list[str] = layout, j: int = j) -> Optional[str]:
-                    store = Obj('TokenStore', {'_blocks': [], '_len': sum(len(x) for x in layout)}, 'store')
+                    store = new_store(ts, sum(len(x) for x in layout))
                     for bi, pat in enumerate(layout):
                         store.f['_blocks'].append(mk_block(store, bi, pat, f'b{bi}_'))
                     blk = store.f['_blocks'][-1]
@@ -930,13 +971,108 @@ def rule_pos_sem(ctx: RuleContext, ts: TS, rid: str, max_tokens: int = 4) -> Non
 
 
 # ====================================================================== NAV-SEM / BUILD-SEM (C07)
-def rule_nav_sem(ctx: RuleContext, ts: TS, rid: str) -> None:
-    ctx.rule(rid, 'finite-domain abstract evaluation of the navigation and addressing functions of TokenStore over every block layout of a small '
+def _histories(mk: Any, call: Any, note: Any, positions: bool) -> int:
+    """query everything, really perform one mutation (_splice interpreted, not intercepted), query everything again: whatever a query
+    remembers about the layout must not survive the mutation.  positions=True asks get_position instead of the index family."""
+    hist = 0
+    for layout in (('P', 'PNP', ['PN', 'P'], ['N', 'PP', 'NP']) if positions else ([1], [3], [2, 1], [1, 2, 2])):
+        total = sum(len(x) if isinstance(x, str) else x for x in layout) if isinstance(layout, list) else len(layout)
+        layout = layout if isinstance(layout, list) else [layout]
+        for op in ('insert_after', 'insert_before', 'remove', 'replace', 'splice') + (('update',) if positions else ()):
+            for i in range(total):
+                for j in ([i] if op in ('insert_after', 'insert_before', 'replace') else range(i, total)):
+                    lay = f'blocks of {layout} tokens'
+                    store, flat, coord = mk(layout)
+
+                    def query(flat_now: list[Obj], when: str) -> None:
+                        if positions:
+                            sizes = [(t.f['size'].f['line'], t.f['size'].f['column']) for t in flat_now]
+                            for k, t in enumerate(flat_now):
+                                r, ex, _ = call('get_position', store, t)
+                                l, c, _ = fold(sizes[:k])
+                                if ex or not isinstance(r, Obj) or r.f.get('line') != l or r.f.get('column') != c:
+                                    got = (r.f.get('line'), r.f.get('column')) if isinstance(r, Obj) else r
+                                    note('get_position', f'{lay}: {when}: get_position(token at {k}) gives {got!r} / {ex}, the text before '
+                                                         f'it ends at ({l!r}, {c!r})')
+                            return
+                        r, ex, _ = call('__len__', store)
+                        if ex or r != len(flat_now):
+                            note('__len__', f'{lay}: {when}: len() gives {r!r} / {ex}, the store holds {len(flat_now)} tokens')
+                        for k, t in enumerate(flat_now):
+                            r, ex, _ = call('get_index', store, t)
+                            if ex or r != k:
+                                note('get_index', f'{lay}: {when}: get_index(token at {k}) gives {r!r} / {ex}')
+                            r, ex, _ = call('get_next', store, t)
+                            if ex or r is not (flat_now[k + 1] if k + 1 < len(flat_now) else None):
+                                note('get_next', f'{lay}: {when}: get_next(token at {k}) is not the token at {k + 1}')
+                            r, ex, _ = call('get_prev', store, t)
+                            if ex or r is not (flat_now[k - 1] if k > 0 else None):
+                                note('get_prev', f'{lay}: {when}: get_prev(token at {k}) is not the token at {k - 1}')
+                        r, ex, _ = call('get_first', store)
+                        if ex or r is not (flat_now[0] if flat_now else None):
+                            note('get_first', f'{lay}: {when}: get_first() is not the first token')
+                        r, ex, _ = call('get_last', store)
+                        if ex or r is not (flat_now[-1] if flat_now else None):
+                            note('get_last', f'{lay}: {when}: get_last() is not the last token')
+                        r, ex, _ = call('__iter__', store)
+                        if ex or not isinstance(r, list) or [id(x) for x in r] != [id(x) for x in flat_now]:
+                            note('__iter__', f'{lay}: {when}: iteration does not yield the tokens in order')
+
+                    query(flat, 'before any change')
+                    new2 = [mk_token('m0', False), mk_token('m1', positions)]
+                    if op == 'update':
+                        tok = flat[i]
+                        for new_nl in (False, True):
+                            nl, nc = tok_size(f'u{int(new_nl)}', new_nl)
+                            _, ex, _ = call(op, store, tok, StrSym('new', new_nl), mk_pos(nl, nc), live=True)
+                            if ex:
+                                note(op, f'{lay}: update of token {i} raises {ex}')
+                                break
+                            tok.f['size'] = mk_pos(nl, nc)
+                            hist += 1
+                            query(flat, f'after update of token {i} to a text {"with" if new_nl else "without"} a newline (and queries before it)')
+                        continue
+                    if op == 'insert_after':
+                        _, ex, _ = call(op, store, flat[i], new2, live=True)
+                        want = flat[:i + 1] + new2 + flat[i + 1:]
+                    elif op == 'insert_before':
+                        _, ex, _ = call(op, store, flat[i], new2, live=True)
+                        want = flat[:i] + new2 + flat[i:]
+                    elif op == 'remove':
+                        _, ex, _ = call(op, store, flat[i], flat[j], live=True)
+                        want = flat[:i] + flat[j + 1:]
+                    elif op == 'replace':
+                        _, ex, _ = call(op, store, flat[i], new2[0], live=True)
+                        want = flat[:i] + new2[:1] + flat[i + 1:]
+                    else:
+                        _, ex, _ = call(op, store, new2, flat[i], flat[j], live=True)
+                        want = flat[:i] + new2 + flat[j + 1:]
+                    if ex:
+                        note(op, f'{lay}: {op} of tokens {i}..{j} raises {ex}')
+                        continue
+                    hist += 1
+                    query(want, f'after {op} at tokens {i}..{j} (and queries before it)')
+    return hist
+
+
+def rule_hist_pos(ctx: RuleContext, ts: TS, rid: str) -> None:
+    rule_nav_sem(ctx, ts, rid, positions=True)
+
+
+def rule_nav_sem(ctx: RuleContext, ts: TS, rid: str, positions: bool = False) -> None:
+    if positions:
+        ctx.rule(rid, 'histories over the abstract store (finite-domain evaluation, blocks of newline / plain tokens with symbolic sizes): ask '
+                      'get_position of every token, really perform one insert_after / insert_before / remove / replace / splice / update '
+                      '(+ size assignment), ask again: every answer is the fold of the sizes of the tokens now in front -- nothing a query '
+                      'remembers survives a mutation')
+    else:
+        ctx.rule(rid, 'finite-domain abstract evaluation of the navigation and addressing functions of TokenStore over every block layout of a small '
                   'family (empty store, one block, several blocks of 1..3 tokens): get_first / get_last / get_next / get_prev / get_index / '
                   'iter(a, b) / __iter__ / __len__ agree with the flat list of the blocks\' tokens for every token (pair), queries on a token '
                   'without a handle are refused, and splice / insert_after / insert_before / remove / replace hand _splice the (block, index) '
-                  'coordinates of exactly the addressed positions')
-    layouts = [[0], [1], [3], [2, 1], [1, 3, 2], [2, 2, 2, 1]]
+                  'coordinates of exactly the addressed positions; and histories: query everything, really perform one mutation, query '
+                  'again -- nothing a query remembers survives a mutation')
+    layouts = [] if positions else [[0], [1], [3], [2, 1], [1, 3, 2], [2, 2, 2, 1]]
     n = [0]
     problems: dict[str, str] = {}
 
@@ -946,6 +1082,7 @@ def rule_nav_sem(ctx: RuleContext, ts: TS, rid: str) -> None:
         def __init__(self) -> None:
             super().__init__(ts, [])
             self.spliced: list = []
+            self.live = False
 
         def compare(self, op: Any, a: Any, b: Any, node: Any) -> bool:          # type: ignore[override]
             # token models compare by (RULE, text): in a document whose tokens all read the same, `==` holds between any two of them
@@ -954,25 +1091,26 @@ def rule_nav_sem(ctx: RuleContext, ts: TS, rid: str) -> None:
             return super().compare(op, a, b, node)
 
         def call_function(self, fn: FuncInfo, args: list, kwargs: dict) -> Any:        # type: ignore[override]
-            if fn.qualname == 'TokenStore._splice':
+            if fn.qualname == 'TokenStore._splice' and not self.live:
                 self.spliced.append((list(args[1]), args[2], args[3]))
                 return None
             return super().call_function(fn, args, kwargs)
 
     def mk(layout: list[int]) -> tuple[Obj, list[Obj], dict[int, tuple[int, int]]]:
-        store = Obj('TokenStore', {'_blocks': [], '_len': sum(layout)}, 'store')
+        store = new_store(ts, sum(len(k) if isinstance(k, str) else k for k in layout))
         flat: list[Obj] = []
         coord: dict[int, tuple[int, int]] = {}
         for bi, k in enumerate(layout):
-            b = mk_block(store, bi, 'P' * k, f'b{bi}_')
+            b = mk_block(store, bi, k if isinstance(k, str) else 'P' * k, f'b{bi}_')
             store.f['_blocks'].append(b)
             for ti, t in enumerate(b.f['tokens']):
                 coord[id(t)] = (bi, ti)
                 flat.append(t)
         return store, flat, coord
 
-    def call(name: str, store: Obj, *args: Any) -> tuple[Any, Optional[str], 'Interp']:
+    def call(name: str, store: Obj, *args: Any, live: bool = False) -> tuple[Any, Optional[str], 'Interp']:
         it = Interp()
+        it.live = live
         n[0] += 1
         fn = ts.funcs.get(f'TokenStore.{name}')
         if fn is None:
@@ -1029,6 +1167,12 @@ def rule_nav_sem(ctx: RuleContext, ts: TS, rid: str) -> None:
         r, ex, it = call('insert_before', store, None, new)
         if ex or it.spliced != [(new, (0, 0), (0, 0))]:
             note('insert_before', f'{lay}: insert_before(None, ..) addresses {[(s[1], s[2]) for s in it.spliced]} / {ex}')
+        for j, tj_tok in enumerate(flat):
+            bj, tj = coord[id(tj_tok)]
+            r, ex, it = call('splice', store, new, None, tj_tok)
+            if ex or it.spliced != [(new, (0, 0), (bj, tj + 1))]:
+                note('splice', f'{lay}: splice(.., None, token {j}) -- replace everything up to and including token {j} -- addresses '
+                               f'{[(s[1], s[2]) for s in it.spliced]} / {ex}, expected (0, 0)..({bj}, {tj + 1})')
         for i, t in enumerate(flat):
             bi, ti = coord[id(t)]
             r, ex, it = call('insert_after', store, t, new)
@@ -1051,8 +1195,16 @@ def rule_nav_sem(ctx: RuleContext, ts: TS, rid: str) -> None:
                 r, ex, it = call('remove', store, t, flat[j])
                 if ex or len(it.spliced) != 1 or it.spliced[0][1:] != ((bi, ti), (bj, tj + 1)):
                     note('remove', f'{lay}: remove(token {i}, token {j}) addresses {[(s[1], s[2]) for s in it.spliced]} / {ex}')
-    if n[0] < 300:
-        raise AnalysisError(f'NAV-SEM: only {n[0]} calls evaluated')
+    hist = _histories(mk, call, note, positions)
+    if (n[0] < 300 and not positions) or hist < 60:
+        raise AnalysisError(f'{rid}: only {n[0]} calls / {hist} histories evaluated')
+    if positions:
+        for fn in ('get_position', 'update', 'insert_after', 'insert_before', 'splice', 'remove', 'replace'):
+            f = ts.funcs.get(f'TokenStore.{fn}')
+            where = f'{ts.m.relpath}:{f.node.lineno}' if f else ''
+            ctx.check(fn not in problems, rid, f'token_store:TokenStore.{fn}', 'positions after a mutation', problems.get(fn, ''), where,
+                      note=f'{hist} histories')
+        return
     for fn in ('get_first', 'get_last', '__len__', '__iter__', 'get_next', 'get_prev', 'get_index', 'iter', 'insert_after', 'insert_before',
                'splice', 'remove', 'replace'):
         f = ts.funcs.get(f'TokenStore.{fn}')
@@ -1077,7 +1229,7 @@ def rule_build_sem(ctx: RuleContext, ts: TS, rid: str) -> None:
                     2 * load + 1, 3 * load + 1})
     problem = ''
     for nlen in sizes:
-        store = Obj('TokenStore', {'_blocks': [], '_len': 0}, 'store')
+        store = new_store(ts, 0)
         toks = [mk_token(f't{i}', i % 7 == 3) for i in range(nlen)]
         it = PosInterp(ts, [])
         it.MAX_STEPS = 2_000_000
@@ -1108,3 +1260,53 @@ def rule_build_sem(ctx: RuleContext, ts: TS, rid: str) -> None:
                 problem = problem or f'{nlen} tokens: block {k} is empty'
     ctx.check(not problem, rid, 'token_store:_build_blocks', 'partition', f'_build_blocks: {problem}', f.where,
               note=f'lengths {sizes}')
+
+
+def rule_from_tokens_sem(ctx: RuleContext, ts: TS, rid: str) -> None:
+    ctx.rule(rid, 'TokenStore.from_tokens, interpreted on token lists of several lengths: the new store holds exactly the given tokens in order, '
+                  'in consistent blocks with consecutive indexes, _len equals their number, no block keeps the caller\'s list object, and a '
+                  'token that already has a handle is refused')
+    f = ts._need('TokenStore.from_tokens')
+    it0 = PosInterp(ts, [])
+    load = it0.expr(ast.Name(id='_LOAD_FACTOR', ctx=ast.Load()), {})
+    if not isinstance(load, int):
+        raise AnalysisError('FROM-SEM: _LOAD_FACTOR is not an integer constant')
+    problem = ''
+    for nlen in sorted({0, 1, 3, load - 1, load, load + 1, 2 * load + 1}):
+        toks = [mk_token(f't{i}', i % 5 == 2) for i in range(nlen)]
+        it = PosInterp(ts, [])
+        it.MAX_STEPS = 2_000_000
+        try:
+            store = it.call_function(f, [ClassRef('TokenStore'), toks], {})
+        except Raised as ex:
+            problem = problem or f'{nlen} tokens: raises {ex}'
+            continue
+        if not isinstance(store, Obj) or not isinstance(store.f.get('_blocks'), list):
+            problem = problem or f'{nlen} tokens: returns {store!r}'
+            continue
+        blocks = store.f['_blocks']
+        got = [t for b in blocks for t in b.f['tokens']]
+        if [id(t) for t in got] != [id(t) for t in toks]:
+            problem = problem or f'{nlen} tokens: the store holds {len(got)} tokens, not the {nlen} given ones in order'
+        if store.f.get('_len') != nlen:
+            problem = problem or f'{nlen} tokens: _len is {store.f.get("_len")!r}'
+        if any(b.f['tokens'] is toks for b in blocks):
+            problem = problem or (f'{nlen} tokens: a block adopts the caller\'s list object as its token list: edits of the store write through into '
+                                  f'the caller\'s list, and the caller re-using that list changes the store behind its bookkeeping')
+        for k, b in enumerate(blocks):
+            if b.f.get('index') != k or b.f.get('store') is not store:
+                problem = problem or f'{nlen} tokens: block {k} has index {b.f.get("index")!r} or a foreign store'
+            pr = judge_block(b, sizes_of(b), True)
+            if pr:
+                problem = problem or f'{nlen} tokens: block {k}: {pr}'
+    # refusal of attached tokens
+    attached = [mk_token('a0', False), mk_token('a1', False)]
+    attached[1].f['store_handle'] = Obj('_StoreHandle', {'block': None, 'index': 0})
+    it = PosInterp(ts, [])
+    try:
+        it.call_function(f, [ClassRef('TokenStore'), attached], {})
+        problem = problem or 'a token that already has a store handle is accepted'
+    except Raised:
+        pass
+    ctx.check(not problem, rid, 'token_store:TokenStore.from_tokens', 'fresh consistent store', f'TokenStore.from_tokens: {problem}', f.where,
+              note='lengths around the load factor; attached token refused')
